@@ -2,8 +2,9 @@
 
 package message
 
-// Intrinsics recognised by the verifier; executable so that lemma functions double
-// as replay drivers.
+// Intrinsics recognised by the verifier.  They are executable so that lemma
+// functions double as replay drivers (a failed verifAssert panics with its label;
+// a failed verifAssume / verifRequires skips the case).
 
 type verifSkip struct{}
 
@@ -18,5 +19,21 @@ func verifAssume(c bool) {
 		panic(verifSkip{})
 	}
 }
+
+func verifRequires(c bool) {
+	if !c {
+		panic(verifSkip{})
+	}
+}
+
+func verifEnsures(c bool, label string) {
+	if !c {
+		panic("verifEnsures: " + label)
+	}
+}
+
+// verifAny is a universally quantified int for the verifier; at run time it is an
+// arbitrary representative.
+func verifAny() int { return 0 }
 
 func verifCover(label string) {}
